@@ -196,7 +196,7 @@ theorem forIter_static (it : SExp) (h : closedIter it = true) (st st' : RSt) (va
     obtain ⟨ints, hci, hli⟩ := constInts_allIntLit args hargs
     simp only [forIter, rm_bind_ok] at hr
     obtain ⟨_, s1, hn, a1, s2, hv, a2, s3, hf, hr⟩ := hr
-    rw [rm_liftX_ok, visitEs_plain args (plainEs_allIntLit args hargs)] at hv
+    rw [rm_visitMs_ok, visitEs_plain _ args (plainEs_allIntLit args hargs)] at hv
     obtain ⟨hv, rfl⟩ := hv
     simp only [Except.ok.injEq] at hv
     subst hv
@@ -232,7 +232,7 @@ theorem forIter_static (it : SExp) (h : closedIter it = true) (st st' : RSt) (va
     obtain ⟨h1, h2⟩ := iterVals_allIB es h
     simp only [forIter, rm_bind_ok] at hr
     obtain ⟨_, s1, hn, a1, s2, hv, hr⟩ := hr
-    rw [rm_liftX_ok, visitEs_plain es (plainEs_allIB es h)] at hv
+    rw [rm_visitMs_ok, visitEs_plain _ es (plainEs_allIB es h)] at hv
     obtain ⟨hv, rfl⟩ := hv
     simp only [Except.ok.injEq] at hv
     subst hv
@@ -246,7 +246,7 @@ theorem forIter_static (it : SExp) (h : closedIter it = true) (st st' : RSt) (va
     obtain ⟨h1, h2⟩ := iterVals_allIB es h
     simp only [forIter, rm_bind_ok] at hr
     obtain ⟨_, s1, hn, a1, s2, hv, hr⟩ := hr
-    rw [rm_liftX_ok, visitEs_plain es (plainEs_allIB es h)] at hv
+    rw [rm_visitMs_ok, visitEs_plain _ es (plainEs_allIB es h)] at hv
     obtain ⟨hv, rfl⟩ := hv
     simp only [Except.ok.injEq] at hv
     subst hv
@@ -537,7 +537,7 @@ theorem ml_stmt : ∀ (s : SStmt), okS s = true → ∀ (θ : Subst) (st st' : R
     simp only [okS, Bool.and_eq_true, Bool.not_eq_true'] at hok
     obtain ⟨⟨⟨⟨⟨hc, hb⟩, hnb⟩, he⟩, hfb⟩, hfe⟩ := hok
     have hpl : plainE (substE θ c) = true := substE_plain' θ hib c hc
-    simp only [rwS, rm_bind_ok, rm_liftX_ok, rm_get_ok, rm_pure_ok, visitE_plain _ hpl,
+    simp only [rwS, rm_bind_ok, rm_liftX_ok, rm_visitM_ok, rm_get_ok, rm_pure_ok, visitE_plain _ _ hpl,
       Except.ok.injEq] at h
     obtain ⟨b', s1, hrb, e', s2, hre, _, s3, hnote, hx, s4, hnu, _, _, ⟨rfl, rfl⟩, _, _, ⟨rfl, rfl⟩,
       gb, _, ⟨hgb, rfl⟩, ge, _, ⟨hge, rfl⟩, rfl, rfl⟩ := h
